@@ -48,6 +48,16 @@ add("C03", "exploration", "DESIGN.md §2 C03",
     "pristine state for the solo reply is emulated by deleting cache files and resetting the server's lazy "
     "module tables; plain-Gopher replies have no status line, so only emptiness and menu syntax are judged")
 
+add("C01", "exploration", "DESIGN.md §2 C01",
+    "Hypothesis traversal grammar (token x position x encoding layers x suffix x protocol x handler list x cwd) with "
+    "three oracles: two-world non-interference, audit-event monitor, not-found for climbing selectors",
+    "Every request is served twice in one sandbox whose contents outside the root are swapped in between; replies and "
+    "handler traces must be identical, no audited open/listdir/exec may resolve outside the root, and selectors that "
+    "contain a climbing token after the protocol's single decoding must be refused. 16k (quick) / 300k (thorough) "
+    "structured cases per run plus raw byte lines; absence of an escape is not proved.",
+    "CPython audit events stand for OS opens (no C extension opens files here); stat-only probes are covered by the "
+    "two-world comparison only; trees contain no symlink leaving the root")
+
 NOT_APPLICABLE = []
 
 
